@@ -192,7 +192,7 @@ func (d *vfDumper) dump(v reflect.Value, path string) {
 		}
 		e := v.Elem()
 		d.w("(" + e.Type().String() + ")")
-		d.dump(e, path)
+		d.dump(e, path+"<"+e.Type().String()+">")
 	case reflect.Ptr:
 		if v.IsNil() {
 			d.w("nil")
